@@ -673,11 +673,17 @@ class Gen:
             choices.append(("opadd", 3))
         if lists:
             choices.append(("push", 2))
+        cap_on = self.of_type(sc, "optn", captured_only=True)
+        if cap_on:
+            choices.append(("modopt", 3))
         if own_i:
             choices.append(("setraw", 1))
         if cap_i:
             choices.append(("modraw", 2))
         k = rng.weighted(choices)
+        if k == "modopt":
+            # a captured optional is written through `modify`, to a value or to nil (both come out of the helper)
+            return ["mod", rng.choice(cap_on), ["call", "feed", [["i", rng.choice([0, 1, 5, 5])]]]]
         if k == "setraw":
             # the right-hand side is a bare element read: the VALUE is stored, the variable does not follow later writes to the element
             return ["set", rng.choice(own_i), ["tbl", self.int_expr(sc, 1)]]
